@@ -117,6 +117,13 @@ CHECKS.update({
             "DESIGN.md §4 C19"),
 })
 
+CHECKS.update({
+    "C05": ("racerig", "forced-schedule runtime monitor on real OS threads: cfg-guarded pre-emption hooks park the driver poll and 1..3 error-raising handle calls at individual shared-state operations and ALL orderings of the hook-delimited segments are executed (depth-first enumeration for full driver polls); plus free-running iterations; oracles: first-stored error wins, single effective close with the winner's code, every later call reports the winner, no lost wake-up; ThreadSanitizer and Miri many-seeds as add-ons",
+            "Every ordering of the segments for k = 1, 2 (quick) and 3 (thorough) stream actors x 32 scenario shapes x 7 error kinds is executed (complete at hook granularity), 2*10^4 / 10^6 free-running iterations besides; the controller totally orders the events and reads the error cell as ground truth. Held-on-observed at that granularity.",
+            "Interleavings are explored at the granularity of the five hook points (the only cross-thread shared state is SharedState); one driver task = one waker; close reason text is recorded, not judged; a 20 s no-progress watchdog makes the run inconclusive, never a violation.",
+            "DESIGN.md §4 C05"),
+})
+
 NOT_YET = {}
 
 def main():
